@@ -390,7 +390,7 @@ Qed.
 
 Lemma ext_deliver_prefix f ss ss' : In ss' (deliver_prefix f ss) -> ext ss ss'.
 Proof.
-  revert ss'. induction ss as [|[k s] r IH]; simpl; intros ss' H; [destruct H|].
+  revert ss'. induction ss as [|[k s] r IH]; simpl; intros ss' H; [destruct H as [<-|[]]; constructor|].
   destruct H as [<-|H]; [apply ext_refl|].
   destruct (s_conn s).
   - apply in_app_or in H. destruct H as [H|H].
@@ -428,7 +428,7 @@ Qed.
 
 Lemma deliver_prefix_fst f ss ss' : In ss' (deliver_prefix f ss) -> map fst ss' = map fst ss.
 Proof.
-  revert ss'. induction ss as [|[k s] r IH]; simpl; intros ss' H; [destruct H|].
+  revert ss'. induction ss as [|[k s] r IH]; simpl; intros ss' H; [destruct H as [<-|[]]; reflexivity|].
   destruct H as [<-|H]; [reflexivity|].
   destruct (s_conn s).
   - apply in_app_or in H. destruct H as [H|H].
